@@ -271,6 +271,13 @@ func formatTier(out *hutil.Out, spec *hutil.Spec) {
 			out.Sample(map[string]any{"phout_line": got})
 		}
 	}
+	// every millisecond value of the timestamp
+	for ms := 0; ms < 1000; ms++ {
+		ts := time.Date(2017, 1, 17, 13, 49, 59, ms*1e6+(ms%7)*1000, time.UTC)
+		var f [10]int
+		f[ms%10] = ms
+		check(ts, "t", ms%2 == 0, uint64(ms), f)
+	}
 	for _, ts := range stamps {
 		for _, tag := range tags {
 			for _, withID := range []bool{false, true} {
